@@ -31,7 +31,7 @@ MANIFEST = {
                  'against a reference dispatch model',
     'text': 'All histories up to depth 3 (quick) / 5 (thorough) over a menu of 42 operations (registrations, removals, served requests) on two rules are replayed on '
             'fresh applications; each distinct method-table state is probed with 8 request methods x 5 paths and compared '
-            'with the reference (handler, status, exact Allow); rejected registrations must not change the state.',
+            'with the reference (handler, status, exact Allow); rejected registrations must not change the state. The search is repeated on an application with a scoped 404 handler, and every 405 is also requested as JSON.',
     'note': 'Bounds: 2 editable rules + 1 static, handler identities A/B, depth as stated. Trusted: the reference model here.',
 }
 
